@@ -452,7 +452,7 @@ pub fn cross_scope_program(dir: usize, jump: usize) -> (Prog, Id) {
 // (3) One fault
 // ---------------------------------------------------------------------------
 
-pub const FAULTS: [&str; 10] = [
+pub const FAULTS: [&str; 11] = [
     "division by zero",
     "integer overflow",
     "subscript out of range",
@@ -463,6 +463,7 @@ pub const FAULTS: [&str; 10] = [
     "RETURN without GOSUB",
     "illegal function call after a user FUNCTION returned in the same statement",
     "illegal function call after a user FUNCTION that executes ON ERROR RESUME NEXT returned in the same statement",
+    "RETURN label without GOSUB",
 ];
 
 pub const CONTAINERS: [&str; 17] = [
@@ -508,6 +509,7 @@ fn failing(b: &mut B, fault: usize) -> Stmt {
         6 => b.assign(var("X%"), call("FailF%", vec![num(1)])),
         8 => b.assign(var("S$"), bin(BinOp::Add, call("Okf$", vec![num(1)]), builtin("LEFT$", vec![st("abc"), var("M%")]))),
         9 => b.assign(var("S$"), bin(BinOp::Add, call("Arm$", vec![num(1)]), builtin("LEFT$", vec![st("abc"), var("M%")]))),
+        10 => b.s(K::Return(Some("After".into()))),
         _ => b.s(K::Return(None)),
     }
 }
@@ -515,7 +517,11 @@ fn failing(b: &mut B, fault: usize) -> Stmt {
 /// The program for one (fault, container, position in the container, handler mode, handler action).
 pub fn fault_program(fault: usize, container: usize, position: usize, handler: usize, change_var: bool) -> Option<Prog> {
     // RESUME (retry) needs a repairable operand
-    if matches!(handler, 1 | 7 | 8) && matches!(fault, 4 | 7) {
+    if matches!(handler, 1 | 7 | 8) && matches!(fault, 4 | 7 | 10) {
+        return None;
+    }
+    // RETURN label names a module-level label: module-level containers only (and the label After must exist)
+    if fault == 10 && matches!(container, 7 | 8 | 9) {
         return None;
     }
     // the alternating handlers need the statement to fail twice: loop bodies only
